@@ -708,7 +708,7 @@ def date_bin(stride, source, origin):
                     return n
     else:
         seconds = stride.days * 86400 + stride.hours * 3600 + stride.minutes * 60 + stride.seconds
-        if seconds < 0:
+        if seconds <= 0:
             # FIXME: this should raise and error: stride must be greater than zero
             return None
         diff = (source - origin).total_seconds()
